@@ -257,8 +257,8 @@ func VerifC15Round() {
 func VerifC15RoundDigits() {
 	f := verifFloat64("f")
 	verifAssume(!math.IsNaN(f) && !math.IsInf(f, 0))
-	digits := []int{0, 1, 2, 15, 17, 18, 21, 100, 300, 323, 324, 400, 401}
-	d := digits[verifChoice("ndigits", len(digits))]
+	digits := []int{0, 2, 17, 18, 300, 324, 401, 1, 15, 21, 100, 323, 400} // quick: the first seven
+	d := digits[verifChoice("ndigits", verifBound(7, len(digits)))]
 	var nd Object = Int(d)
 	if verifChoice("ndigits_rep", 2) == 1 {
 		nd = (*BigInt)(big.NewInt(int64(d)))
